@@ -140,11 +140,12 @@ def handleItem (sz : Sizes) (C : Crypto) (s : Srv) (t : Int) (it : Item) (acts :
     | some e =>
       if it.hdr.ptype ≠ .challengeResp then (s, acts, [])
       else
-        let r := recvDatagram C (serverRole it.H (tokFor s it) (some e.conn.token)) e.conn t it.hdr it.d
+        -- `_onConnect` (inside `_recvChallengeResponse`): move to the connected pool, then
+        -- `handler.connect`; the rest of the datagram's messages are processed afterwards
+        let (a, acts') := nextAct acts
+        let r := recvDatagram C (serverRoleOn it.H (tokFor s it) (some e.conn.token) (fun c => actOn sz c a)) e.conn t it.hdr it.d
         if r.2.1.contains .promoted then
-          -- `_onConnect`: move to the connected pool, then `handler.connect`
-          let (a, acts') := nextAct acts
-          let c1 := actOn sz r.1 a
+          let c1 := r.1
           let s1 := { s with temps := pdel s.temps it.addr, conns := pset s.conns it.addr { e with conn := c1 } }
           let ev := [SEvent.connect e.id it.addr c1.token] ++ (if a.raises then [.contained "connect"] else [])
           match r.2.2 with
